@@ -323,6 +323,8 @@ class Connection(Stateful):
             return data_in, None, None
         try:
             byte_count, channel_id, frame_in = pamqp_frame.unmarshal(data_in)
+            if byte_count > len(data_in):
+                return data_in, None, None
             return data_in[byte_count:], channel_id, frame_in
         except pamqp_exception.UnmarshalingException:
             pass
